@@ -90,6 +90,92 @@ func runC09(c *engine.Ctx) {
 	r1 := c.Rule("R1", "every wire response is established to belong to the sending peer (status.p == p, or no such request) before any effect: hooks, sends, status or loader updates, cancel/terminate (default-deny escape)", 1)
 	r2 := c.Rule("R2", "a peer filter exists: some function on the response path returns only elements appended under entry.p == p", 1)
 	c09Rules(c, r1, r2)
+	r3 := c.Rule("R3", "block hooks are run only by the request's own executor, with that request's peer and its own last response", 1)
+	c09BlockHooks(c, r3)
+}
+
+// c09BlockHooks: who-may-call ProcessBlockHooks and with what.
+func c09BlockHooks(c *engine.Ctx, rule string) {
+	lastF := c.P.Field("requestmanager/executor", "RequestTask", "LastResponse")
+	peerF := c.P.Field("requestmanager/executor", "RequestTask", "P")
+	statusLast := c.P.Field("requestmanager", "inProgressRequestStatus", "lastResponse")
+	statusPeer := c.P.Field("requestmanager", "inProgressRequestStatus", "p")
+	if lastF == nil || peerF == nil || statusLast == nil || statusPeer == nil {
+		c.AnchorMissing(rule, "executor.RequestTask{LastResponse,P} / inProgressRequestStatus{lastResponse,p}")
+		return
+	}
+	n := 0
+	for _, f := range c.P.SrcFuncs() {
+		if !engine.IsShipped(engine.FuncPkgPath(f)) {
+			continue
+		}
+		for _, ci := range engine.Calls(f) {
+			if !ci.Common.IsInvoke() || ci.Common.Method.Name() != "ProcessBlockHooks" || !strings.HasSuffix(engine.FuncPkgPath(f), "/requestmanager/executor") && !strings.Contains(engine.FuncPkgPath(f), "/requestmanager") {
+				continue
+			}
+			if strings.Contains(engine.FuncPkgPath(f), "/responsemanager") {
+				continue
+			}
+			n++
+			c.Analysed(engine.FuncName(f))
+			inExec := engine.FuncPkgPath(f) == engine.Module+"/requestmanager/executor"
+			// follow the (p, response) arguments to the caller that has the task
+			okArgs := false
+			if inExec {
+				// the arguments are parameters of f; every call site of f passes rt.P and rt.LastResponse.Load()
+				sites := 0
+				okAll := true
+				for _, g := range c.P.FuncsIn("requestmanager/executor") {
+					for _, cj := range engine.Calls(g) {
+						if cj.Static != f {
+							continue
+						}
+						sites++
+						pOK := fieldReadOf(cj.Arg(0)) == peerF
+						rOK := false
+						if ta, ok := engine.LocalValue(cj.Arg(1)).(*ssa.TypeAssert); ok {
+							if ld, ok := ta.X.(*ssa.Call); ok && ld.Call.StaticCallee() != nil && ld.Call.StaticCallee().Name() == "Load" && fieldReadOf(ld.Call.Args[0]) == lastF {
+								rOK = true
+							}
+						}
+						if !pOK || !rOK {
+							okAll = false
+						}
+					}
+				}
+				okArgs = sites > 0 && okAll
+			}
+			c.Decide(rule, engine.FuncName(f)+"|ProcessBlockHooks", ci.Instr.Pos(), inExec && okArgs,
+				"block hooks run in the executor with the task's own peer and the task's own last response",
+				"block hooks are run outside the request's executor, or with a peer / response that is not the task's own")
+		}
+	}
+	if n == 0 {
+		c.AnchorMissing(rule, "a ProcessBlockHooks call on the requestor side")
+		return
+	}
+	// the task's peer and last-response slot come from the same table entry
+	okTask := false
+	for _, f := range c.P.FuncsIn("requestmanager") {
+		var pBase, lBase ssa.Value
+		for _, st := range engine.StoresTo([]*ssa.Function{f}, peerF) {
+			if fl, b := engine.LoadedField(st.Val); fl == statusPeer {
+				pBase = b
+			}
+		}
+		for _, st := range engine.StoresTo([]*ssa.Function{f}, lastF) {
+			if fa, ok := st.Val.(*ssa.FieldAddr); ok && engine.FieldOf(fa) == statusLast {
+				lBase = fa.X
+			}
+		}
+		if pBase != nil && lBase != nil && engine.SameValue(pBase, lBase) {
+			okTask = true
+			c.Hold(rule, engine.FuncName(f)+"|task-from-one-entry", f.Pos(), "the task's peer and last-response slot are taken from the same table entry")
+		}
+	}
+	if !okTask {
+		c.Violate(rule, "task-from-one-entry", token.NoPos, "the executor task's peer and last-response slot do not come from one table entry")
+	}
 }
 
 // c09Rules evaluates the requestor-side peer-routing rules (also used as C01.R6).
